@@ -759,8 +759,8 @@ def dag_to_mag(G, L: Optional[Set] = None, S: Optional[Set] = None):
     mag = ADMG()
 
     for A, B in adj_nodes:
-        AuS = S.union(A)
-        BuS = S.union(B)
+        AuS = S.union({A})
+        BuS = S.union({B})
 
         ansA: Set = set()
         ansB: Set = set()
